@@ -58,6 +58,8 @@ class AwsHooks:
                 ln = num.field(st, key, rec, "len")
                 ptr = num.field(st, key, rec, "ptr")
                 self.set_extent(st, ptr, ln)
+                if getattr(self, "assume_small_views", False):
+                    st.add(ln - (SIZE_MAX >> 1))  # a real memory view is shorter than PTRDIFF_MAX
             elif rec == "aws_array_list" and f in ("length", "item_size", "current_size", "data"):
                 ln = num.field(st, key, rec, "length")
                 isz = num.field(st, key, rec, "item_size")
@@ -255,6 +257,46 @@ class AwsHooks:
             num.havoc_call(e, st)
         return Poly.const(0)
 
+    # -- byte_buf growth (postconditions re-derived from the bodies by the rule that relies on them: C04 SUMMARY)
+    def _reserve(self, num, st, e, args, relative):
+        from .num import feasible
+        bp, amount = args[0], args[1]
+        if bp is None or amount is None:
+            return NotImplemented
+        base = num.base_of(st, bp)
+        outs = []
+        for mode in ("fits", "grows", "fails"):
+            s = st.copy()
+            ln = num.field(s, base + "len", "aws_byte_buf", "len")
+            cap = num.field(s, base + "capacity", "aws_byte_buf", "capacity")
+            req = (ln + amount) if relative else amount
+            if mode == "fits":
+                new = [req - cap]
+            elif mode == "grows":
+                new = [cap + 1 - req, req - SIZE_MAX]
+            else:
+                new = []
+            if new and not feasible(s, new):
+                continue
+            for f in new:
+                s.add(f)
+            if mode == "grows":
+                nb = num.fresh(s, "buffer", None, (1, SIZE_MAX))
+                s.env[base + "buffer"] = Poly.atom(nb)
+                s.meta[base + "buffer"] = ("aws_byte_buf", "buffer", None)
+                s.env[base + "capacity"] = req
+                s.meta[base + "capacity"] = ("aws_byte_buf", "capacity", "unsigned long")
+                s.extent[nb] = req
+            s.vals[e["id"]] = Poly.const(-1 if mode == "fails" else 0)
+            outs.append(s)
+        return outs
+
+    def s_aws_byte_buf_reserve(self, num, st, e, args):
+        return self._reserve(num, st, e, args, False)
+
+    def s_aws_byte_buf_reserve_relative(self, num, st, e, args):
+        return self._reserve(num, st, e, args, True)
+
     def s_aws_mem_release(self, num, st, e, args):
         return None
 
@@ -329,7 +371,7 @@ class AwsHooks:
         if cp is None or ln is None:
             return NotImplemented
         tgt = target_of(num, st, e["a"][0])
-        base = (num.key(tgt, st) + ".") if tgt is not None and num.key(tgt, st) else ("(" + repr(cp) + ")->")
+        base = (num.key(tgt, st) + ".") if tgt is not None and num.key(tgt, st) else num.base_of(st, cp)
         H = SIZE_MAX >> 1
         outs = []
         # success
@@ -352,14 +394,56 @@ class AwsHooks:
             s.vals[e["id"]] = None
             s.notes.setdefault("adv_ok", {})[e["id"]] = True
             outs.append(s)
-        # failure: NULL view, cursor unchanged
-        s2 = st.copy()
-        self._ret_fields(s2, e, {"ptr": (Poly.const(0), ("aws_byte_cursor", "ptr", None)), "len": (Poly.const(0), ("aws_byte_cursor", "len", "unsigned long"))})
-        s2.vals[e["id"]] = None
-        outs.append(s2)
+        # failure: NULL view, cursor unchanged; one of the three clauses of the guard fails
+        for viol in (lambda p_, l_: Poly.const(1) + l_ - ln, lambda p_, l_: Poly.const(H + 1) - ln, lambda p_, l_: Poly.const(H + 1) - l_):
+            s2 = st.copy()
+            p2 = num.field(s2, base + "ptr", "aws_byte_cursor", "ptr")
+            l2 = num.field(s2, base + "len", "aws_byte_cursor", "len")
+            f_ = viol(p2, l2)
+            if not feasible(s2, [f_]):
+                continue
+            s2.add(f_)
+            self._ret_fields(s2, e, {"ptr": (Poly.const(0), ("aws_byte_cursor", "ptr", None)), "len": (Poly.const(0), ("aws_byte_cursor", "len", "unsigned long"))})
+            s2.vals[e["id"]] = None
+            outs.append(s2)
         return outs
 
     s_aws_byte_cursor_advance = _advance
+
+    def _cbase(self, num, st, e, i, args):
+        tgt = target_of(num, st, e["a"][i])
+        k = num.key(tgt, st) if tgt is not None else None
+        if k:
+            return k + "."
+        return num.base_of(st, args[i]) if args[i] is not None else None
+
+    def s_aws_byte_cursor_find_exact(self, num, st, e, args):
+        """success: 1 <= to_find.len <= input.len and the result is the suffix of input starting at the match, which
+        lies wholly inside input; failure: -1, result untouched.  (Postcondition re-derived from the callee's body by
+        the rule that uses it: C04 SUMMARY.)"""
+        bi, bt, bo = self._cbase(num, st, e, 0, args), self._cbase(num, st, e, 1, args), self._cbase(num, st, e, 2, args)
+        if not (bi and bt and bo):
+            return NotImplemented
+        outs = []
+        s = st.copy()
+        ip, il = num.field(s, bi + "ptr", "aws_byte_cursor", "ptr"), num.field(s, bi + "len", "aws_byte_cursor", "len")
+        tl = num.field(s, bt + "len", "aws_byte_cursor", "len")
+        k = Poly.atom(num.fresh(s, "match_at", None, (0, SIZE_MAX)))
+        from .num import feasible
+        new = [Poly.const(1) - tl, tl - il, k + tl - il, Poly.const(1) - ip]
+        if feasible(s, new):
+            for f in new:
+                s.add(f)
+            for fld, v in (("ptr", ip + k), ("len", il - k)):
+                num.havoc_prefix(s, bo + fld)
+                s.env[bo + fld] = v
+                s.meta[bo + fld] = ("aws_byte_cursor", fld, None if fld == "ptr" else "unsigned long")
+            s.vals[e["id"]] = Poly.const(0)
+            outs.append(s)
+        s2 = st.copy()
+        s2.vals[e["id"]] = Poly.const(-1)
+        outs.append(s2)
+        return outs
     s_aws_byte_cursor_advance_nospec = _advance
 
     def s_aws_nospec_mask(self, num, st, e, args):
@@ -386,7 +470,7 @@ class AwsHooks:
         lp, idx = args[0], args[1]
         if lp is None or idx is None:
             return NotImplemented
-        base = "(" + repr(lp) + ")->"
+        base = num.base_of(st, lp)
         outs = []
         s = st.copy()
         isz = num.field(s, base + "item_size", "aws_array_list", "item_size")
@@ -418,7 +502,7 @@ class AwsHooks:
             return NotImplemented
         outs = []
         s = st.copy()
-        isz = num.field(s, "(" + repr(lp) + ")->item_size", "aws_array_list", "item_size")
+        isz = num.field(s, num.base_of(s, lp) + "item_size", "aws_array_list", "item_size")
         tgt = target_of(num, s, e["a"][2])
         if tgt is not None and idx.degree() + isz.degree() <= 2:
             R = Poly.atom(num.fresh(s, "necessary", num.ty(tgt), (0, SIZE_MAX)))
@@ -442,10 +526,10 @@ class AwsHooks:
         p = args[0]
         if p is None:
             return Poly.atom(num.fresh(st, "len", num.ty(e)))
-        key = "(" + repr(p) + ")->length"
+        key = num.base_of(st, p) + "length"
         if key in st.env:
             return st.env[key]
-        return num.field(st, "(" + repr(p) + ")->length", "aws_array_list", "length")
+        return num.field(st, key, "aws_array_list", "length")
 
     # -- constructors returning a view by value
     def _ret_fields(self, st, e, fields):
@@ -460,7 +544,7 @@ class AwsHooks:
     def s_aws_byte_cursor_from_buf(self, num, st, e, args):
         p = args[0]
         if p is not None:
-            k = "(" + repr(p) + ")->"
+            k = num.base_of(st, p)
             b = num.field(st, k + "buffer", "aws_byte_buf", "buffer")
             ln = num.field(st, k + "len", "aws_byte_buf", "len")
             self._ret_fields(st, e, {"ptr": (b, ("aws_byte_cursor", "ptr", None)), "len": (ln, ("aws_byte_cursor", "len", "unsigned long"))})
@@ -476,7 +560,7 @@ class AwsHooks:
     def s_aws_byte_cursor_from_string(self, num, st, e, args):
         p = args[0]
         if p is not None:
-            k = "(" + repr(p) + ")->"
+            k = num.base_of(st, p)
             ln = num.field(st, k + "len", "aws_string", "len")
             a = num.fresh(st, "bytes", None, (1, SIZE_MAX))
             st.extent[a] = ln + 1
@@ -512,12 +596,23 @@ def in_bounds(st, D, n):
     why = []
     datoms = D.atoms()
     others = [a for a in st.extent if a not in direct]
+    reach = None
     for a in direct + others:
         off = D - Poly.atom(a)
         ext = st.extent[a]
         if a not in direct:
-            # only objects that the state relates to D at all
-            if not any((datoms & f.atoms()) and (a in f.atoms()) for f in st.facts):
+            # only objects that the state relates to D at all (through a chain of facts)
+            if reach is None:
+                reach = set(datoms)
+                fas = [f.atoms() for f in st.facts]
+                grew = True
+                while grew:
+                    grew = False
+                    for fa in fas:
+                        if (fa & reach) and not fa <= reach:
+                            reach |= fa
+                            grew = True
+            if a not in reach:
                 continue
         lo_ok = entails(st, -off)
         hi_ok = lo_ok and entails(st, off + n - ext)
